@@ -42,7 +42,15 @@ def run(ctx):
     res = Result("C04")
     db = ctx.db("quil_rs")
     res.rules += ["R1 (K6) placeholder errors only in the Qubit/Target writers under !fall_back_to_debug", "R2 (K5) flag pass-through", "R3 (K2) no Debug/Display formatting of placeholder-carrying values in writers", "R4 (K5) entry points pass constants"]
-    holds_ph = lambda ti: db.ty_contains(ti, db.adt_pred(QUBIT)) or db.ty_contains(ti, db.adt_pred(TARGET))
+    def is_generic(ti):
+        """a type parameter or associated-type projection (through references): the writer cannot know what is underneath,
+        so a Qubit or Target may be"""
+        t = db.types[ti]
+        while t["k"] in ("ref", "ptr"):
+            t = db.types[t["t"]]
+        return t["k"] in ("param", "alias")
+
+    holds_ph = lambda ti: db.ty_contains(ti, db.adt_pred(QUBIT)) or db.ty_contains(ti, db.adt_pred(TARGET)) or is_generic(ti)
     writers = [f for f in db.fns if f.name == "write" and f.path.endswith("as quil_rs::quil::Quil>::write")]
     res.count("quil_writers", len(writers), floor=60)
     helpers = [f for f in db.fns if f.kind in ("Fn", "AssocFn") and f not in writers and flag_param(f) is not None]
@@ -279,6 +287,49 @@ def run(ctx):
                 if not grouped:
                     res.find(key, "%s:%d" % (ws[0]["file"], ws[0]["ln"]), "%s parses `qubit* (optional lists) expression` with nothing mandatory between the qubits and the expression, and the %s writer prints the expression ungrouped: an expression whose text starts with an integer or an identifier is read back as more qubits" % (pf["name"], ty),
                              "Delay{qubits: [0], frame_names: [], duration: 1+2} prints `DELAY 0 1+2`, which does not parse; likewise a duration `theta[0]` or `pi`")
+                # which expression kinds are grouped: the first token of the printed duration decides whether
+                # many0(parse_qubit) swallows it (qubits are Integer | Identifier | %Variable tokens).  First tokens per
+                # kind, read off the Expression writer: Address `name[`, FunctionCall `name(`, PiConstant `pi`, Variable
+                # `%name` -> swallowed; Infix starts with its left operand -> anything; Prefix starts with its operator,
+                # and `+` prints nothing -> the operand; Number: digits / sign (an integral real is recovered by the
+                # parser's integer fallback, a two-part literal is the writer's own business: K8|complex-literal-position)
+                MUST_GROUP = {"Address", "FunctionCall", "Infix", "PiConstant", "Variable"}
+                _lit = lambda x: x.lower() if x in ("True", "False") else x
+                if grouped:
+                    key = "K8|grouped-expression-kinds|%s" % ty
+                    tables = []
+                    for m_ in _fa(ws[0]["body"], lambda n: n.get("k") == "match"):
+                        t_ = {}
+                        for a_ in m_["arms"]:
+                            for p_ in (a_["pat"]["ps"] if a_["pat"].get("k") == "or" else [a_["pat"]]):
+                                nm = _src(p_).split("(")[0].split("{")[0].strip()
+                                if nm.startswith("Expression::"):
+                                    t_[nm.rsplit("::", 1)[-1]] = (_lit(_src(a_["body"]).strip()), bool(a_.get("guard")))
+                                elif nm == "_":
+                                    t_["_"] = (_lit(_src(a_["body"]).strip()), bool(a_.get("guard")))
+                        if t_:
+                            tables.append(t_)
+                    unconditional = not _fa(ws[0]["body"], lambda n: n.get("k") in ("if", "match"))
+                    if unconditional:
+                        res.site(key, True, {"grouping": "unconditional", "verdict": "ok"})
+                    elif len(tables) != 1:
+                        res.site(key, False, {"verdict": "undecided: the grouping decision is not a single match on the expression kind"})
+                        res.undecided.append("grouped-expression-kinds|%s: decision shape not recognised" % ty)
+                    else:
+                        t_ = tables[0]
+                        bad_ = []
+                        for v_ in sorted(MUST_GROUP):
+                            body_, guard_ = t_.get(v_, t_.get("_", ("<missing>", False)))
+                            if body_ != "true" or guard_:
+                                bad_.append("%s => %s" % (v_, body_[:40]))
+                        body_, guard_ = t_.get("Prefix", t_.get("_", ("<missing>", False)))
+                        if body_ == "false" or not (body_ == "true" or "Plus" in body_ or "operator" in body_):
+                            bad_.append("Prefix => %s (a prefix `+` prints nothing, so its operand comes first)" % body_[:40])
+                        ok_ = not bad_
+                        res.site(key, True, {"table": {k_: v_[0][:50] for k_, v_ in t_.items()}, "ungrouped_kinds_that_read_as_qubits": bad_, "verdict": "ok" if ok_ else "VIOLATION"})
+                        if not ok_:
+                            res.find(key, "%s:%d" % (ws[0]["file"], ws[0]["ln"]), "the %s writer leaves these expression kinds ungrouped although their text starts with a token that %s reads as a qubit: %s" % (ty, pf["name"], bad_),
+                                     "Delay{qubits: [0], frame_names: [], duration: %theta} prints `DELAY 0 %theta`, which does not parse; a duration cis(2) comes back as qubits [0, cis] and duration 2")
     except RuntimeError:
         res.undecided.append("K8|ungrouped-expression-after-qubit-list (no syn facts)")
     # R4
